@@ -205,6 +205,27 @@ RETURN_VALUE_OPCODE = opcode.opmap["RETURN_VALUE"]
 # to RETURN_CONST
 RETURN_OPCODES = {RETURN_VALUE_OPCODE, opcode.opmap.get("RETURN_CONST")}
 YIELD_VALUE_OPCODE = opcode.opmap["YIELD_VALUE"]
+# Python 3.11+ executes RESUME when a frame starts (argument 0) and when a
+# generator or coroutine continues after a yield or await (argument != 0)
+RESUME_OPCODE = opcode.opmap.get("RESUME")
+YIELD_OPCODES = {YIELD_VALUE_OPCODE, opcode.opmap.get("YIELD_FROM")}
+
+
+def is_resumption(frame: FrameType) -> bool:
+    """Is this 'call' event the continuation of a suspended generator or coroutine?
+
+    The profiler reports a 'call' not only when a function is entered but also
+    each time a generator or coroutine frame is resumed (or an exception is
+    thrown into it).
+    """
+    lasti = frame.f_lasti
+    if lasti < 0:
+        return False
+    code = frame.f_code.co_code
+    last_opcode = code[lasti]
+    if last_opcode == RESUME_OPCODE:
+        return bool(code[lasti + 1] != 0)
+    return last_opcode in YIELD_OPCODES
 
 # A CodeFilter is a predicate that decides whether or not a the call for the
 # supplied code object should be traced.
@@ -256,17 +277,21 @@ class CallTracer:
         return self.cache[key]
 
     def handle_call(self, frame: FrameType) -> None:
+        # I can't figure out a way to access the value sent to a generator via
+        # send() from a stack frame.
+        if frame in self.traces:
+            # resuming a generator; we've already seen this frame
+            return
+        if is_resumption(frame):
+            # resuming a generator whose call was not sampled: sampling decides
+            # once per call, and a trace must start where the call starts
+            return
         if self.sample_rate and self.sampler.randrange(self.sample_rate) != 0:
             return
         func = self._get_func(frame)
         if func is None:
             return
         code = frame.f_code
-        # I can't figure out a way to access the value sent to a generator via
-        # send() from a stack frame.
-        if frame in self.traces:
-            # resuming a generator; we've already seen this frame
-            return
         arg_names = code.co_varnames[: code.co_argcount + code.co_kwonlyargcount]
         arg_types = {}
         # A call with a value whose type cannot be collected is abandoned as a
